@@ -59,6 +59,13 @@ inductive Q where
   | allAttestations (page : PageReq)
   | report (prover merkle owner : String) (start : Int)
   | allReports (page : PageReq)
+  | freeSpace (address : String)
+  | storeCount (address : String)
+  | priceCheck (duration bytes jklPrice : Int)          -- jklPrice: the raw `sdk.Dec` the chain reads (oracle input)
+  | activeProviders
+  | networkSize
+  | availableSpace
+  | storageStats
   deriving Repr, Inhabited
 
 inductive Resp where
@@ -78,6 +85,7 @@ inductive Resp where
   | strs (l : List String)
   | form (f : Form)
   | forms (items : List Form) (nextKey : Option String) (total : Nat)
+  | stats (purchased used usedRatio : Int) (activeUsers uniqueUsers : Nat) (usersByPlan : List (Int × Int))
   deriving DecidableEq, Repr, Inhabited
 
 def paged {V : Type} (mk : List V → Option String → Nat → Resp) (entries : List (String × V)) (r : PageReq) : Resp :=
@@ -111,6 +119,94 @@ def findFile (s : State) (merkle : String) : List String :=
       match AMap.get s.proofs pk with
       | none => none
       | some p => (AMap.get s.providers p.prover).map (·.ip)))
+
+
+/-! ### the statistics and helper queries (grpc_query_storage_stats.go, _freespace.go, _price_check.go, _providers.go) -/
+
+/-- `strconv.ParseInt(s, 10, 64)` / `sdk.NewIntFromString(s)` followed by `Int64()`: an optional
+sign, then decimal digits only, the value within int64 (otherwise an error, resp. a panic) -/
+def parseInt64 (s : String) : Option Int :=
+  let cs := s.toList
+  let (neg, ds) : Bool × List Char :=
+    match cs with
+    | '+' :: r => (false, r)
+    | '-' :: r => (true, r)
+    | r => (false, r)
+  if ds.isEmpty || !ds.all Char.isDigit then none
+  else
+    let n : Int := ds.foldl (fun (a : Int) c => a * 10 + ((c.toNat - 48 : Nat) : Int)) 0
+    let v : Int := if neg then -n else n
+    if I64.inRange v then some v else none
+
+/-- `uint64(x)` of an int64 -/
+def u64 (x : Int) : Int := x % 18446744073709551616
+
+/-- `GetAllProofsForProver`: the proof records under the prover prefix (no terminator) in store order -/
+def proofsOf (s : State) (prover : String) : List Proof := (underPrefix (proofEntries s) prover).map (·.2)
+
+/-- `GetProviderUsing`: the sizes of the files the prover's records point to (int64 sum) -/
+def providerUsing (s : State) (prover : String) : Int :=
+  (proofsOf s prover).foldl (fun acc p =>
+    match AMap.get s.files (p.merkle, p.owner, p.start) with
+    | some f => I64.add acc f.fileSize
+    | none => acc) 0
+
+/-- `GetAllActiveProviders`: the provider records, in store order, that hold at least one proof record -/
+def activeProviders (s : State) : List String :=
+  (providerEntries s).filterMap (fun e => if (proofsOf s e.2.address).isEmpty then none else some e.2.address)
+
+/-- `NetworkSize`: Σ uint64(FileSize·MaxProofs) over the primary index, in uint64 -/
+def networkSize (s : State) : Int :=
+  (primaryEntries s).foldl (fun acc e => u64 (acc + u64 (I64.mul e.2.fileSize e.2.maxProofs))) 0
+
+/-- `AvailableSpace`: Σ uint64(total space) of the active providers whose total space parses -/
+def availableSpace (s : State) : Int :=
+  (activeProviders s).foldl (fun acc a =>
+    match AMap.get s.providers a with
+    | none => acc
+    | some p =>
+      match parseInt64 p.totalspace with
+      | none => acc
+      | some v => u64 (acc + u64 v)) 0
+
+/-- `PriceCheck` -/
+def priceCheck (s : State) (duration bytes : Int) (jklPrice : Dec) : Resp :=
+  let dur := I64.mul (I64.mul duration 3600000000000) 24
+  let month : Int := 3600000000000 * 24 * 30
+  if dur - Int.tmod dur month ≤ 0 then .err
+  else
+    let mbs0 := Int.tdiv bytes 1000000
+    let mbs := if mbs0 ≤ 0 then 1 else mbs0
+    let hours := Dec.trunc ((Dec.quo? (Dec.ofInt (Int.tdiv dur 1000000)) (Dec.ofInt 3600000)).getD Dec.zero)
+    match storageCostKbs s.params.pricePerTbPerMonth (I64.mul mbs 1000) hours jklPrice with
+    | none => .err
+    | some c => if I64.inRange c then .num c else .err
+
+/-- insertion sort of the plan table by plan size (the Go map is compared as a sorted list) -/
+def insertPlan (k : Int) : List (Int × Int) → List (Int × Int)
+  | [] => [(k, 1)]
+  | (k', n) :: t => if k = k' then (k', I64.add n 1) :: t else if k < k' then (k, 1) :: (k', n) :: t else (k', n) :: insertPlan k t
+
+def addUser (l : List String) (a : String) : List String := if l.contains a then l else a :: l
+
+/-- `StorageStats` at block time `now` -/
+def storageStats (s : State) (now : Int) : Resp :=
+  let (purchased0, active0, all0, plans) :=
+    (payInfoEntries s).foldl (fun (acc : Int × List String × List String × List (Int × Int)) e =>
+      let (pu, ac, al, pl) := acc
+      let al' := addUser al e.2.address
+      if e.2.endT < now then (pu, ac, al', pl)
+      else (I64.add pu e.2.spaceAvailable, addUser ac e.2.address, al', insertPlan e.2.spaceAvailable pl)) (0, [], [], [])
+  let (purchased, used, active, all) :=
+    (primaryEntries s).foldl (fun (acc : Int × Int × List String × List String) e =>
+      let (pu, us, ac, al) := acc
+      let m := I64.mul e.2.fileSize e.2.maxProofs
+      let pu' : Int := if (0 : Int) < e.2.expires then I64.add pu m else pu
+      (pu', I64.add us m, addUser ac e.2.owner, addUser al e.2.owner))
+      (purchased0, 0, active0, all0)
+  match Dec.quo? (Dec.ofInt used) (Dec.ofInt purchased) with
+  | none => .err                                         -- `Quo` by zero panics; the gRPC layer recovers
+  | some q => .stats (u64 purchased) (u64 used) (Dec.mulInt q 100).raw active.length all.length plans
 
 /-- floor seconds of a Unix-nanosecond instant (`time.Time.Unix`) -/
 def unixSec (ns : Int) : Int := ns / 1000000000
@@ -146,5 +242,18 @@ def run (s : State) (now : Int) : Q → Resp
   | .allAttestations p => paged .forms (attestEntries s) p
   | .report pr m o st => match AMap.get s.reports (pr, m, o, st) with | some f => .form f | none => .err
   | .allReports p => paged .forms (reportEntries s) p
+  | .freeSpace a =>
+    match AMap.get s.providers a with
+    | none => .err
+    | some p =>
+      match parseInt64 p.totalspace with
+      | none => .err
+      | some v => .num (I64.sub v (providerUsing s a))
+  | .storeCount a => .num (proofsOf s a).length
+  | .priceCheck d b jp => priceCheck s d b ⟨jp⟩
+  | .activeProviders => .strs (activeProviders s)
+  | .networkSize => .num (networkSize s)
+  | .availableSpace => .num (availableSpace s)
+  | .storageStats => storageStats s now
 
 end Canine.Storage.Query
